@@ -191,7 +191,7 @@ void harness(void) {
   struct IO_detail_BinaryFileReader r;
   struct TopologyKernel mesh; r.mesh_ = &mesh;
   __CPROVER_assume(r.state_ == 5);
-  __CPROVER_assume(r.file_header_.n_verts <= 2147483647UL && r.file_header_.n_edges <= 2147483647UL && r.file_header_.n_faces <= 2147483647UL && r.file_header_.n_cells <= 2147483647UL);
+  __CPROVER_assume(r.file_header_.n_verts <= 2147483647UL && r.file_header_.n_edges <= 1073741823UL && r.file_header_.n_faces <= 1073741823UL && r.file_header_.n_cells <= 2147483647UL);   /* edges/faces: counts whose half-entity handles fit an int (DESIGN S4, candidate about larger counts) */
   __CPROVER_assume(r.n_verts_read_ <= r.file_header_.n_verts && r.n_edges_read_ <= r.file_header_.n_edges && r.n_faces_read_ <= r.file_header_.n_faces && r.n_cells_read_ <= r.file_header_.n_cells);
   g_nv = r.file_header_.n_verts; g_ne = r.n_edges_read_; g_nf = r.n_faces_read_; rec_n = 0;      /* the mesh holds all vertices and the entities read so far */
   unsigned long n = nondet_ulong(); __CPROVER_assume(n <= 40);
@@ -221,12 +221,12 @@ def obligations():
     obs = _base2()
     for ent, ename in ((1, 'edges'), (2, 'faces'), (3, 'cells')):
         for var in (0, 1):
-            cons = '  unsigned long n = nondet_ulong(); __CPROVER_assume(n <= %d);' % (32 if not var else 34)
+            cons = '  unsigned long n = nondet_ulong(); __CPROVER_assume(n <= %d);' % (28 if not var else 30)
             h = TOPO_HARNESS.replace('  unsigned long n = nondet_ulong(); __CPROVER_assume(n <= 40);', cons)
             h = h.replace('  unsigned long ne0 = r.n_edges_read_', '  if (n >= 24) { __CPROVER_assume(d.data_.data[12] == %d); __CPROVER_assume(%s); }\n  unsigned long ne0 = r.n_edges_read_' % (ent, 'd.data_.data[13] == 0' if var else 'd.data_.data[13] != 0'))
-            obs.append(Ob(id='C07.read_topo_chunk.%s.%s_valence' % (ename, 'variable' if var else 'fixed'), props=['C07', 'C18', 'C06'], quick_for=[], tu='ovmb', cfg='ovmb', tier='B', roots=[BR + 'read_topo_chunk'], stubs=TOPO_STUBS, harness=h, preamble=TOPO_PRE,
-                          unwind=36, unwind_start=4, timeout=3000, mem_gb=24, defines={'VSTD_CAP_DEFAULT': 12}, bounds=dict(chunk_bytes=32 if not var else 34, payload_bytes=8 if not var else 10),
-                          note='read_topo_chunk (%s, %s valence) with the per-encoding decoding lambdas inlined, on ANY chunk of up to %d bytes and any reader state; kernel add_* are stubs asserting that every handle designates an existing entity' % (ename, 'variable' if var else 'fixed', 32 if not var else 34)))
+            obs.append(Ob(id='C07.read_topo_chunk.%s.%s_valence' % (ename, 'variable' if var else 'fixed'), props=['C07', 'C18', 'C06'], quick_for=([] if var else ['C07', 'C18', 'C06']), tu='ovmb', cfg='ovmb', tier='B', roots=[BR + 'read_topo_chunk'], stubs=TOPO_STUBS, harness=h, preamble=TOPO_PRE,
+                          unwind=36, unwind_start=4, timeout=3000, mem_gb=24, defines={'VSTD_CAP_DEFAULT': 12}, bounds=dict(chunk_bytes=28 if not var else 30, payload_bytes=4 if not var else 6),
+                          note='read_topo_chunk (%s, %s valence) with the per-encoding decoding lambdas inlined, on ANY chunk of up to %d bytes and any reader state; kernel add_* are stubs asserting that every handle designates an existing entity' % (ename, 'variable' if var else 'fixed', 28 if not var else 30)))
     obs.append(Ob(id='C07.validate_span', props=['C07', 'C18'], tu='ovmb', cfg='ovmb', tier='U', roots=[BR + 'validate_span'],
                   harness='void harness(void) { struct IO_detail_BinaryFileReader r; unsigned long total = nondet_ulong(), rd = nondet_ulong(); struct IO_detail_ArraySpan s; __CPROVER_assume(rd <= total);\n  _Bool ok = IO_detail_BinaryFileReader__validate_span(&r, total, rd, &s);\n  __CPROVER_assert(ok == (s.first == rd && s.count <= total - rd), "C18.validate_span.accepts_exactly_spans_that_continue_and_fit");\n  __CPROVER_assert(!ok || s.first + s.count <= total, "C07.validate_span.accepted_span_ends_within_the_declared_total");\n}',
                   note='validate_span(total, read, span) for all 64-bit arguments with read <= total'))
